@@ -525,7 +525,10 @@ class _Translator(object):
             if isinstance(f, SpecFn):
                 return f(*args)
             if isinstance(f, z3.FuncDeclRef):
-                return SInt(f(*[_ie(a) for a in args]))
+                r = f(*[_ie(a) for a in args])
+                if z3.is_seq(r):
+                    return sym.ZSeq(r)      # uninterpreted function into byte sequences (abstract chunks)
+                return SInt(r)
             if f in (min, max) and any(sym.is_sym(a) for a in args):
                 a, b = args
                 c = (a <= b) if f is min else (a >= b)
